@@ -343,7 +343,9 @@ def _flux_dets(cfg, sl, fixed_axis, variants):
         d = PoyntingFluxDetector(name=f"pf{direction}{int(red)}{int(keep)}", direction=direction, reduce_volume=red, keep_all_components=keep, fixed_propagation_axis=fixed_axis, switch=L.on_switch())
         try:
             out[v] = d.place_on_grid(sl, cfg, L.key())
-        except ValueError as e:  # numpy/JAX shape errors: placing a detector must not fail
+        except Exception as e:  # noqa: BLE001  placing a detector on a valid box must not fail
+            if not L.is_repo_exception(e):
+                raise
             failed.setdefault(keep, []).append((v, f"{type(e).__name__}: {e}"))
     for keep in (False, True):
         if keep in failed:
@@ -375,9 +377,11 @@ def _flux_task(nonuniform, sizes, fixed_axis, cplx=False):
         placed, t_arr, t, k, rows = L.symbolic_schedule([dets[v] for v in keys], inp)
         dets = dict(zip(keys, placed))
         p = fixed_axis if fixed_axis is not None else list(sizes).index(1)
-        for v in keys:
-            if not v[2]:
-                c.prove(f"propagation_axis[{v[0]},reduce={v[1]}]", dets[v].propagation_axis == p)
+        for v in list(keys):
+            # an explicitly fixed axis (0 included) wins over the shape; otherwise the size-one axis
+            ok, ax = L.guarded(f"no_exception_on_valid_input/propagation_axis[{v[0]},reduce={v[1]},all={v[2]}]", lambda d=dets[v]: d.propagation_axis)
+            if ok:
+                c.prove(f"propagation_axis[{v[0]},reduce={v[1]},all={v[2]}]", ax == p)
         E, H = L.fresh_fields(sizes, "complex" if cplx else "real", inp=inp)
         c.cover("pre")
         new, old = {}, {}
@@ -522,7 +526,11 @@ def _configs(tier, seed):
         for nonuni, gl in grids:
             cplx = (i + int(nonuni)) % 3 == 0
             out[f"flux/{gl}/{_lab(sizes)}/auto{'c' if cplx else ''}"] = (_flux_task(nonuni, sizes, None, cplx))
-    fixed = [((1, 1, 1), 0), ((1, 1, 1), 1), ((1, 1, 1), 2), ((1, 1, 2), 0), ((1, 1, 2), 1), ((2, 1, 1), 2), ((2, 2, 2), 0), ((2, 2, 2), 1), ((2, 2, 2), 2), ((1, 2, 3), 1), ((3, 1, 2), 2)]
+    fixed = [((1, 1, 1), 0), ((1, 1, 1), 1), ((1, 1, 1), 2), ((1, 1, 2), 0), ((1, 1, 2), 1), ((2, 1, 1), 2), ((2, 2, 2), 0), ((2, 2, 2), 1), ((2, 2, 2), 2)]
+    # a fixed axis on planes that are NOT normal to it (the size-one axis must be ignored), every axis
+    fixed += [((2, 1, 3), 0), ((3, 2, 1), 0), ((1, 2, 3), 1), ((2, 3, 1), 1), ((1, 3, 2), 2), ((3, 1, 2), 2)]
+    # ... and on the plane normal to it
+    fixed += [((1, 2, 2), 0), ((2, 1, 2), 1), ((2, 2, 1), 2)]
     if thorough:
         fixed = [(s, a) for s in ALL_SIZES for a in range(3) if s[0] * s[1] * s[2] <= 12]
     for sizes, a in fixed:
